@@ -18,13 +18,15 @@ CONSTANTS PropOnly,
           TolVar,      \* explained-variance excess bound in 1e-9 units
           TolGap       \* |sum of explained variance - 100 %| when the whole rank was extracted, 1e-9 units
 VARIABLES l, lastit,
+          cert,        \* 1 once the trace has shown a PLS latent variable that ran into the pass ceiling with two DISTINCT convergence values in its
+                       \* last two passes (the class of C18-adv4); never reset: the Certify line at the end of the certification trace asks for it
           meta         \* what the Reset line says about the input beyond the model's own variables: offl (log2 of the column offset, 0 = none),
                        \* sc (log2 of the whole-input scale divisor), nr (objects), hist (1: other fits ran first in the same process), warmed (their Warm line was seen)
-tvars == <<mvars, l, lastit, meta>>
+tvars == <<mvars, l, lastit, cert, meta>>
 Ev == Tr[l]
 Step == l' = l + 1
 IsEv(name) == l <= Len(Tr) /\ Ev.e = name
-Same == UNCHANGED <<nproc, meta, capleft>>          \* capleft: the pass ceiling is not followed line by line (a capped latent variable shows as k passes)
+Same == UNCHANGED <<nproc, meta, capleft, cphase>>          \* capleft: the pass ceiling is not followed line by line (a capped latent variable shows as k passes)
 
 KMeansCap == 100                                      \* clustering.c: shouldStop(centroids, oldcentroids, it, 100)
 NMCap(dim, it) == (dim + 1) + it * (dim + 3)          \* optimization.c: dim + 1 start vertices, per round at most reflection + one more point + dim + 1 (shrink)
@@ -54,7 +56,7 @@ ClsOf(ev, i) == IF ev.nf[i] = 1 THEN "nan" ELSE IF ev.vx[i] <= VarZeroQ THEN "ze
 TInit == /\ l = 1 /\ lastit = 0 /\ site = "PCA" /\ rank = 0 /\ npc = 1 /\ noise = FALSE /\ cblk = FALSE
          /\ pc = 1 /\ phase = "done" /\ tcls = "Zero" /\ first = TRUE /\ a = "Fin" /\ b = "Fin" /\ conv = "Big"
          /\ left = 0 /\ tick = 0 /\ evals = [i \in 1..MaxNpc |-> IF i = 1 THEN "zero" ELSE "unset"] /\ bvar = "fin"
-         /\ nproc = 1 /\ capleft = CapIter /\ meta = [offl |-> 0, sc |-> 0, nr |-> 1, hist |-> 0, warmed |-> 0]
+         /\ nproc = 1 /\ capleft = CapIter /\ cphase = 0 /\ cert = 0 /\ meta = [offl |-> 0, sc |-> 0, nr |-> 1, hist |-> 0, warmed |-> 0]
 
 \* rank = exact number of defined components (PCA/CPCA: rank of the centred matrix; PLS1: Krylov dimension; two responses: only a
 \* lower bound 0/1 is known, see c18.py); rlo = rank except where TLC has to search a consistent count
@@ -63,21 +65,25 @@ TReset == /\ IsEv("Reset") /\ Step /\ phase = "done" /\ lastit' = 0
           /\ pc' = 0 /\ phase' = "start" /\ tcls' = "Zero" /\ first' = TRUE /\ a' = "Fin" /\ b' = "Fin" /\ conv' = "Big"
           /\ left' = 0 /\ tick' = 0 /\ evals' = [i \in 1..MaxNpc |-> "unset"] /\ bvar' = "fin"
           /\ Ev.nproc >= 1 /\ nproc' = Ev.nproc /\ Ev.offl \in 0..36 /\ Ev.hist \in {0, 1} /\ Ev.sc \in -30..30 /\ Ev.nr >= 1
-          /\ meta' = [offl |-> Ev.offl, sc |-> Ev.sc, nr |-> Ev.nr, hist |-> Ev.hist, warmed |-> 0] /\ UNCHANGED capleft
+          /\ meta' = [offl |-> Ev.offl, sc |-> Ev.sc, nr |-> Ev.nr, hist |-> Ev.hist, warmed |-> 0] /\ UNCHANGED <<capleft, cphase, cert>>
 
 \* K7: the harness ran two other fits of the same routine in this process before the case (their passes are counted, not logged)
 TWarm == /\ IsEv("Warm") /\ Step /\ Ev.site = site /\ phase = "start" /\ pc = 0 /\ lastit' = 0
          /\ meta.hist = 1 /\ meta.warmed = 0 /\ Ev.n = 2 /\ Ev.passes >= 0
          /\ meta' = [meta EXCEPT !.warmed = 1]
-         /\ UNCHANGED <<vars, nproc, capleft>>
+         /\ UNCHANGED <<vars, nproc, capleft, cphase, cert>>
 Warmed == meta.hist = 1 => meta.warmed = 1
 
 Cls(c) == IF c \in {"Fin", "Zero", "XZero"} THEN c ELSE "NaN"          \* "Inf" counts as non-finite
-TStart == /\ IsEv("Start") /\ Step /\ Ev.site = site /\ Ev.pc = pc /\ lastit' = 0 /\ Same /\ Warmed
+TStart == /\ IsEv("Start") /\ Step /\ Ev.site = site /\ Ev.pc = pc /\ lastit' = 0 /\ Same /\ UNCHANGED cert /\ Warmed
           /\ IF PropOnly THEN StartAny("Fin") ELSE Start(Cls(Ev.tcls))
 
 \* passes lastit+1 .. Ev.it of the current component; the last logged pass of a component is the one that converged
+PLSMaxIter == 10000                                   \* pls.h: PLSMAXITER
+\* the logged pass is at or past the ceiling and its convergence value differs from that of the pass before (3-limb codes of the two doubles)
+CeilingAlternating(ev) == ev.site = "PLS" /\ ev.it >= PLSMaxIter /\ ev.cq # ev.cqp
 TIter == /\ IsEv("Iter") /\ Step /\ Ev.site = site /\ Ev.pc = pc /\ Ev.it > lastit /\ Same
+         /\ cert' = (IF CeilingAlternating(Ev) THEN 1 ELSE cert)
          /\ LET k == Ev.it - lastit IN
             IF PropOnly
             THEN \/ /\ phase = "iter" /\ lastit' = Ev.it
@@ -90,7 +96,7 @@ TIter == /\ IsEv("Iter") /\ Step /\ Ev.site = site /\ Ev.pc = pc /\ Ev.it > last
                     \/ IterDie(k) /\ lastit' = 0
 
 \* a component returned without a single pass: the null-component guard
-TNull == /\ IsEv("Null") /\ Step /\ Ev.site = site /\ Ev.pc = pc /\ lastit' = 0 /\ Same
+TNull == /\ IsEv("Null") /\ Step /\ Ev.site = site /\ Ev.pc = pc /\ lastit' = 0 /\ Same /\ UNCHANGED cert
          /\ IF PropOnly
             THEN /\ phase = "iter" /\ Store(IF pc < rank THEN "pos" ELSE "zero")
                  /\ UNCHANGED <<site, rank, npc, noise, cblk, tcls, first, a, b, conv, left, tick, bvar>>
@@ -107,11 +113,11 @@ PropDone(ev) == /\ Len(ev.vx) = npc /\ Len(ev.nf) = npc
                 /\ ev.vsum \in 0..TolVarQ /\ ev.vgap \in -1..TolGap
                 /\ ev.bgap \in -1..TolGap                         \* CPCA: every non-constant block is explained completely once the defined components are out
                 /\ ev.hdev = (IF meta.hist = 1 THEN 0 ELSE -1)    \* K7: a fit made after other fits equals, bit for bit, the fit a fresh process makes
-TDone == /\ IsEv("Done") /\ Step /\ Ev.site = site /\ Finish /\ PropDone(Ev) /\ lastit' = 0 /\ Same /\ Warmed
+TDone == /\ IsEv("Done") /\ Step /\ Ev.site = site /\ Finish /\ PropDone(Ev) /\ lastit' = 0 /\ Same /\ UNCHANGED cert /\ Warmed
 
 \* counter-bounded routines observed as a whole: CntStart, CntPass*, CntExhaust collapse into "it returned" - with the counter
 \* inside its cap (k-means: Lloyd iterations seen through hook H6; Nelder-Mead: objective evaluations seen by the callback)
-TReturned == /\ IsEv("Returned") /\ Step /\ Ev.site = site /\ site \in CounterSites /\ phase = "start" /\ Same
+TReturned == /\ IsEv("Returned") /\ Step /\ Ev.site = site /\ site \in CounterSites /\ phase = "start" /\ Same /\ UNCHANGED cert
              /\ Ev.n >= 0
              /\ (site = "NM" => Ev.n \in (Ev.nc + 1)..NMCap(Ev.nc, Ev.iter))
              /\ (site = "KMEANS" => Ev.n \in 1..KMeansCap)
@@ -123,13 +129,18 @@ TReturned == /\ IsEv("Returned") /\ Step /\ Ev.site = site /\ site \in CounterSi
 \* The predicted scores have the shape of the model's scores, are finite in every component - those beyond the rank are null components, their
 \* predicted scores are zeros, not 0/0 - and reproduce the model's own scores over the mathematically defined components.
 PredOK(ev) == ev.shape = 1 /\ ev.nfw = 0 /\ ev.nfb = 0 /\ ev.dev \in 0..TolRecon
-TPred == /\ IsEv("Pred") /\ Step /\ Ev.site = site /\ site \in NipalsSites /\ phase = "start" /\ pc = 0 /\ Same
+TPred == /\ IsEv("Pred") /\ Step /\ Ev.site = site /\ site \in NipalsSites /\ phase = "start" /\ pc = 0 /\ Same /\ UNCHANGED cert
          /\ PredOK(Ev)
          /\ phase' = "done" /\ lastit' = 0 /\ pc' = npc           \* the fit itself was validated in the main trace: here it counts as finished as the model says
          /\ evals' = [i \in 1..MaxNpc |-> IF i > npc THEN "unset" ELSE IF i <= rank THEN "pos" ELSE "zero"]
          /\ UNCHANGED <<site, rank, npc, noise, cblk, tcls, first, a, b, conv, left, tick, bvar>>
 
-TNext == TReset \/ TWarm \/ TStart \/ TIter \/ TNull \/ TDone \/ TReturned \/ TPred
+\* Vacuity certificate (c18.py puts this line at the end of a trace made of the fits that reached the ceiling): the class that tells a ceiling on
+\* the passes from a ceiling on the passes without progress was really exercised on this tree
+TCertify == /\ IsEv("Certify") /\ Step /\ phase = "done" /\ cert = 1 /\ lastit' = 0 /\ Same
+            /\ UNCHANGED <<vars, cert>>
+
+TNext == TCertify \/ TReset \/ TWarm \/ TStart \/ TIter \/ TNull \/ TDone \/ TReturned \/ TPred
 TSpec == TInit /\ [][TNext]_tvars
 TraceAccepted == Accepted
 Diag == ShowCursor(l)
